@@ -176,7 +176,40 @@ def run_point(case):
             return [{'case': case, 'expected': wbk.show(DT(after.year, after.month, after.day)), 'actual': wbk.show_outcome(o),
                      'relation': 'today-is-local-midnight', 'bucket': 'TODAY'}], 1
         return [], 1
+    if fn == 'TODAY.CLOCK':
+        return today_with_clock(case), 3
     raise env.HarnessError(f'unknown fn {fn}')
+
+
+def today_with_clock(case):
+    """TODAY on one long-lived Executor while the (faked) local date moves: every evaluation reads the clock."""
+    import types
+    tr = base_tr()
+    ns = {}
+    exec(compile(tr.src, '<excel2pycl-generated>', 'exec'), ns)
+    real = ns['datetime']
+    clock = {'now': None}
+
+    class FakeDate(real.date):
+        @classmethod
+        def today(cls):
+            return real.date(*clock['now'])
+    shim = types.SimpleNamespace(**{k: getattr(real, k) for k in dir(real) if not k.startswith('__')})
+    shim.date = FakeDate
+    ns['datetime'] = shim
+    ex = wbk.Executor().set_executed_class(class_object=ns['ExcelInPython'])
+    fails = []
+    for step, (ymd, touch) in enumerate(zip(case['dates'], case['touch'])):
+        clock['now'] = ymd
+        if touch:
+            ex.set_cells([wbk.Cell('S', 'A', '1', step)])
+        o = wbk.outcome(lambda: ex.get_cell(wbk.Cell('S', ADDR['TODAY'], '1')).value)
+        exp = DT(*ymd)
+        if not (o[0] == 'value' and isinstance(o[1], real.datetime) and o[1] == exp) and o[0] != 'timeout':
+            fails.append({'case': case, 'expected': wbk.show(exp), 'actual': wbk.show_outcome(o), 'relation': 'today-is-the-current-local-date',
+                          'bucket': 'TODAY:clock' + (':after-set_cells' if touch else ':no-setter-in-between'), 'extra': {'step': step}})
+            break
+    return fails
 
 
 def run_case(case):
@@ -289,6 +322,21 @@ def points(tier):
                     hol.append(h)
                 yield {'fn': 'NETWORKDAYS', 'start': enc(s), 'end': enc(e), 'holidays': [enc(h) for h in hol[:6]], 'with_arg': True}
     yield {'fn': 'TODAY'}
+    yield {'fn': 'TODAY.CLOCK', 'dates': [[2024, 2, 28], [2024, 2, 29], [2024, 3, 1], [2025, 1, 1]], 'touch': [False, False, True, False]}
+    yield {'fn': 'TODAY.CLOCK', 'dates': [[2023, 12, 31], [2024, 1, 1], [2024, 1, 1], [2023, 6, 15]], 'touch': [True, False, False, False]}
+    # month ends (incl. every 28/29 February) as EDATE / EOMONTH starts, whatever the stride of the sweep above
+    for y in (2000, 2019, 2020, 2021, 2023, 2024, 2100):
+        for m in range(1, 13):
+            last = calendar.monthrange(y, m)[1]
+            for d in {28, 29, 30, 31, last} if m != 2 else {27, 28, last}:
+                if d <= last:
+                    for n in range(-60, 61):
+                        yield {'fn': 'EDATE', 'start': enc(DT(y, m, d)), 'n': n}
+    # the first representable years: 1 January 1900 / 1901 plus any month and day offset
+    for y in (1900, 1901):
+        for m in range(-30, 41):
+            for d in (-800, -366, -31, -1, 0, 1, 2, 28, 29, 31, 32, 60, 366, 800):
+                yield {'fn': 'DATE', 'y': y, 'm': m, 'd': d}
 
 
 NSHARD = 16
